@@ -21,7 +21,7 @@ WATCHDOG = {"quick": 1500, "thorough": 3300}
 REQUIRED_CLASSES = {t: ["batch:2..6_points", "batch:uniform_G", "batch:per_point_G", "batch:per_point_G_orders_apart", "batch:ratios_differ", "batch:dyadic_ratio",
                         "refine:interior", "refine:trailing", "mono:scale", "mono:R_z", "mono:P_A", "quantiles",
                         "load_scatter:normal", "load_scatter:lognormal", "load_scatter:unknown", "load_step_labels:descending",
-                        "load_step_labels:shuffled", "node_ids:descending", "node_ids:shuffled_large",
+                        "load_step_labels:shuffled", "node_ids:descending", "node_ids:shuffled_large", "index:selected_from_larger_mesh(unused_levels)",
                         "material:Steel", "material:Al_wrought"]
                     for t in ("quick", "thorough")}
 REQUIRED_MONITORS = ["batch==single:P_RAM_lifetime", "batch==single:P_RAJ_lifetime", "batch==single:infinite_life_verdicts",
@@ -230,6 +230,10 @@ def _run_case(case, ctx):
         ctx.tag("load_step_labels:" + lk, "node_ids:" + nk)
         idx = pd.MultiIndex.from_product([labels, node_ids], names=["load_step", "node_id"])
         load = pd.Series((np.asarray(seq)[:, None] * np.asarray(factors)[None, :]).reshape(-1), index=idx, dtype=float)
+        if rng.random() < 0.3:
+            # the assessed points are cut out of a larger mesh result by a mask: the index keeps the left-out node ids as unused levels
+            load = hcm.multi_point_series(seq, factors, labels, node_ids, selected_from_larger_mesh=True)
+            ctx.tag("index:selected_from_larger_mesh(unused_levels)")
         apb = dict(ap)
         if perG:
             apb["G"] = pd.Series(Gs, index=pd.Index(node_ids, name="node_id"))
